@@ -18,7 +18,8 @@ class HandoffFamily(Family):
     rule = "N sessions (1..40), each an accepted-publickey line on the sshd side and LOGIN + k commands + CRED_DISP on the audit side, fed concurrently by two Go routines (audit records of all sessions interleaved round-robin, bursts), start delays biasing which side goes first; in-process and through the built daemon; non-trivial = at least 2 sessions"
 
     def harness_line(self, c):
-        return "%s %s %s %d:%d %d" % (c["id"], c["mode"], ",".join("%d:%s:%d:%d" % s for s in c["sessions"]), c["ds"], c["da"], c["seed"])
+        return "%s %s %s %d:%d %d%s" % (c["id"], c["mode"], ",".join("%d:%s:%d:%d" % s for s in c["sessions"]), c["ds"], c["da"], c["seed"],
+                                        (" noise=%d" % c["noise"]) if c.get("noise") else "")
 
     def driver_line(self, c, impl_obs):
         s = self.harness_line(c)
@@ -33,12 +34,14 @@ class HandoffFamily(Family):
 
     def sample(self, c):
         return {"mode": c["mode"], "sessions": ["pid %d ses %s k %d" % s[:3] for s in c["sessions"]][:6], "n_sessions": len(c["sessions"]),
-                "delay_sshd_us": c["ds"], "delay_audit_us": c["da"], "seed": c["seed"]}
+                "delay_sshd_us": c["ds"], "delay_audit_us": c["da"], "seed": c["seed"], "failed_logins_interleaved": c.get("noise", 0)}
 
     def signature(self, c, rec):
         return "%s/%s" % (c["mode"], rec.get("ispec"))
 
     def shrink_candidates(self, c):
+        if c.get("noise"):
+            return []
         ss = c["sessions"]
         return [dict(c, sessions=ss[:i] + ss[i + 1:]) for i in range(len(ss)) if len(ss) > 1]
 
@@ -69,6 +72,15 @@ class HandoffFamily(Family):
             cs.append(self.gen(rng, "p", 40))
         for _ in range(12 if quick else 150):
             cs.append(self.gen(rng, "d", 40))
+        # both pipelines saturated at once: a stream of failed logins on the sshd side (each one an event
+        # written by the sshd thread) while long sessions are written by the audit side
+        for mode, nsess, k, noise in ([("p", 4, 1500, 6000), ("d", 4, 1500, 8000)] if quick else
+                                      [("p", 4, 4000, 20000), ("d", 4, 6000, 60000), ("d", 8, 2000, 30000), ("d", 3, 5000, 40000)]):
+            ss, base = [], 10
+            for i in range(nsess):
+                ss.append((1000 + i, str(1 + i), k, base))
+                base += k + 3
+            cs.append({"mode": mode, "sessions": ss, "ds": 0, "da": 0, "seed": rng.below(1 << 30), "noise": noise})
         return cs
 
     def extra_cases(self, rng, n):
